@@ -802,10 +802,44 @@ def fresh_like(shape, elem, *srcs, **meta):
 
 
 class PList:
-    """periodic python list  base * count  with symbolic count"""
+    """periodic python list  base * count  with symbolic count, plus the element writes made since (index, value)"""
     def __init__(s, base, count):
         s.base = list(base)
         s.count = count
+        s.writes = []
+
+    def length(s):
+        return simp(I(s.count) * len(s.base))
+
+    def _norm(s, k):
+        c = ctx()
+        n = s.length()
+        if is_conc(k) and k < 0:
+            k = simp(I(n) + k)
+        if not c.entails(z3.And(I(k) >= 0, I(k) < I(n))):
+            if c.decide(z3.And(I(k) >= 0, I(k) < I(n))) is False:
+                from .interp import Raised
+                raise Raised('IndexError', 'list index out of range')
+        return k
+
+    def get(s, k):
+        if isinstance(k, slice):
+            raise Unsupported('slice of a symbolic-length list')
+        k = s._norm(k)
+        c = ctx()
+        for idx, v in reversed(s.writes):
+            if c.decide(I(idx) == I(k)):
+                return v
+        if len(s.base) == 1:
+            return s.base[0]
+        if is_conc(k):
+            return s.base[k % len(s.base)]
+        raise Unsupported('symbolic index into a periodic list with period > 1')
+
+    def set(s, k, v):
+        if isinstance(k, slice):
+            raise Unsupported('slice assignment into a symbolic-length list')
+        s.writes.append((s._norm(k), v))
 
 
 # ---- slicing ---------------------------------------------------------------
